@@ -588,6 +588,31 @@ fn exec_isa(line: &str) -> String {
     }
 }
 
+/// the two facts about IEEE `f32` addition the theorems take as hypotheses, checked on the CPU's own
+/// additions: `x + (+0.0) = x` bit for bit unless `x = -0.0` (law of the SSE2 theorem), and
+/// `fl(x + y) = (x + y)(1 + d)`, `|d| <= 2^-24`, for finite operands and result (rounding lemma)
+fn oracle_addps(line: &str, answer: &str) -> Result<(), String> {
+    let v: Vec<u32> = line.split_whitespace().skip(2).map(|x| x.parse::<u64>().unwrap() as u32).collect();
+    let r: Vec<u32> = answer.split_whitespace().map(|x| x.parse::<u64>().unwrap() as u32).collect();
+    if r.len() != 8 {
+        return Err("add_ps did not return 8 lanes".into());
+    }
+    for l in 0..8 {
+        let (a, b, s) = (v[l], v[8 + l], r[l]);
+        if b == 0 && a != 0x8000_0000 && s != a {
+            return Err(format!("lane {}: {:#x} + (+0.0) = {:#x}", l, a, s));
+        }
+        let (fa, fb, fs) = (f32::from_bits(a) as f64, f32::from_bits(b) as f64, f32::from_bits(s) as f64);
+        if fa.is_finite() && fb.is_finite() && fs.is_finite() {
+            let exact = fa + fb;
+            if (fs - exact).abs() > (2f64).powi(-24) * exact.abs() * 1.000001 {
+                return Err(format!("lane {}: fl({:e} + {:e}) = {:e} is off by more than 2^-24 relative", l, fa, fb, fs));
+            }
+        }
+    }
+    Ok(())
+}
+
 fn f32_operand(rng: &mut Rng) -> u32 {
     match rng.below(8) {
         0 => f32::NEG_INFINITY.to_bits(),
@@ -918,8 +943,10 @@ pub fn run(cfg: &Cfg) {
         out.announce(c);
         if c.starts_with("c01isa ") {
             let ans = exec_isa(c);
-            out.stat(&format!("isa/{}", c.split_whitespace().nth(1).unwrap_or("")));
-            out.case(c, &ans, None, false);
+            let op = c.split_whitespace().nth(1).unwrap_or("");
+            out.stat(&format!("isa/{}", op));
+            let o = if op == "addps" { Some(oracle_addps(c, &ans)) } else { None };
+            out.case(c, &ans, o, false);
             continue;
         }
         let (ans, o, nt, panics) = exec(c);
